@@ -253,10 +253,17 @@ class EngineD:
             N = g.randint(1, 4)
             shape = [g.choice([1, 2, 3, 4]) for _ in range(N)]
             r = g.randint(1, 3)
+            if N >= 2 and g.random() < 0.04:
+                shape[g.randrange(N)] = 0  # a mode without entries
             w = np.array([gen_double(g) for _ in range(r)])
             fs = [np.array([[gen_double(g) for _ in range(r)] for _ in range(s)], dtype=float).reshape(s, r) for s in shape]
             return {"kind": kind, "shape": shape, "weights": enc(w), "factors": [enc(f) for f in fs], "order": g.choice(["F", "C"])}
         rows, cols = g.choice([1, 2, 3, 4]), g.choice([1, 2, 3, 5])
+        if g.random() < 0.05:
+            if g.random() < 0.5:
+                rows = 0
+            else:
+                cols = 0
         m = np.array([[gen_double(g) for _ in range(cols)] for _ in range(rows)], dtype=float).reshape(rows, cols)
         return {"kind": "matrix", "shape": [rows, cols], "data": enc(m), "order": g.choice(["F", "C"])}
 
